@@ -20,7 +20,7 @@ Withs    == {"none", "ts", "tsmoo", "uss", "us_s", "uus", "umi", "uhh"}      \* 
 Orders   == {"none", "one", "two", "descbare", "barefirst"}    \* descbare: a key without direction after a DESC key (defaults to ASC)
 GbLayouts == {"kw", "wk"}                                         \* GROUP BY key, Window(...)  |  GROUP BY Window(...), key
 Limits   == {0, 3}
-Joins    == {"none", "inner", "left", "aliasnested", "aliasflat", "noalias"}   \* alias*: the stream under an alias, ON keys qualified (and nested)
+Joins    == {"none", "inner", "left", "aliasnested", "aliasflat", "noalias", "reversed", "reversedbare"}   \* alias*: the stream under an alias, ON keys qualified (and nested)
 
 VARIABLES sel, distinct, where, win, having, with, order, limit, join, gbl
 vars == <<sel, distinct, where, win, having, with, order, limit, join, gbl>>
